@@ -37,6 +37,7 @@ type AtAssert struct {
 	Callee string // substring match on callee name
 	Nth    int    // 1-based occurrence, 0 = all
 	C      Clause
+	After  bool // `after call`: checked in the state after the call, may name result(s)
 }
 
 type Contract struct {
@@ -86,7 +87,7 @@ type Contract struct {
 
 var clauseKW = map[string]bool{"requires": true, "ensures": true, "modifies": true, "nopanic": true, "maypanic": true,
 	"panics_when": true, "trusted": true, "pure": true, "noalloc": true, "mayalloc": true, "terminates": true, "decreases": true, "alloc": true,
-	"loop": true, "at": true, "func": true, "extern": true, "pkg": true, "uses": true, "abstract": true, "unreachable": true, "lemma": true, "lemma_ret": true, "pred": true, "global": true, "assume_nopanic": true, "assume_pure": true, "split": true, "claims": true}
+	"loop": true, "at": true, "after": true, "func": true, "extern": true, "pkg": true, "uses": true, "abstract": true, "unreachable": true, "lemma": true, "lemma_ret": true, "pred": true, "global": true, "assume_nopanic": true, "assume_pure": true, "split": true, "claims": true}
 
 var reImp = regexp.MustCompile(`<==>|==>`)
 
@@ -533,8 +534,8 @@ func (c *Contract) addClause(kw, rest, path string, line int) error {
 		default:
 			return fmt.Errorf("%s:%d: unknown loop clause %q", path, line, what)
 		}
-	case "at":
-		// at call <callee>[#k] assert <expr>
+	case "at", "after":
+		// at call <callee>[#k] assert <expr>   /   after call <callee>[#k] assert <expr>
 		fs := strings.Fields(rest)
 		if len(fs) < 4 || fs[0] != "call" {
 			return fmt.Errorf("%s:%d: bad at clause", path, line)
@@ -556,7 +557,7 @@ func (c *Contract) addClause(kw, rest, path string, line int) error {
 		if err != nil {
 			return err
 		}
-		c.At = append(c.At, AtAssert{Callee: callee, Nth: nth, C: cl})
+		c.At = append(c.At, AtAssert{Callee: callee, Nth: nth, C: cl, After: kw == "after"})
 	}
 	return nil
 }
